@@ -16,7 +16,7 @@ TECHNIQUE = ("runtime monitoring: icontract postcondition on the real function a
 RULE = ("finite x of both signs with |x| log-uniform in [1e-300,1e300] and x=0, err/|x| log-uniform in "
         "[1e-12,1e12]; dense strata at every rounding boundary: err mantissa in [9.94,10.0) at all scales, x at "
         "+-10^k(1+-d) and k in -3..3 (the hide-exponent region), err/|x| at 0.1(1+-d) and 1(1+-d), x mantissa "
-        "9.99..; a sixth of the batches under a changed ambient decimal context, a sixth with numpy scalar arguments; inputs are distinct by their float bits; non-trivial = in the property's domain (finite, err>0)")
+        "9.99..; a sixth of the batches under a changed ambient decimal context, a sixth with numpy scalar arguments, a sixth as 0-d arrays formatted twice (same text, arrays untouched); inputs are distinct by their float bits; non-trivial = in the property's domain (finite, err>0)")
 ASSUMPTIONS = [
     "reading convention: bracketed digits are the uncertainty in the last shown digits, times the shown power of ten",
     "tolerance: half a unit of the last shown digit plus 1e-9 of that unit and 1e-15 relative (inexact power-of-ten scaling)",
